@@ -767,6 +767,8 @@ package xpath
 //@   ensures[ends-at-root@C01] result == nil ==> isroot(pos(captured(node)))
 //@   ensures[end-of-document@C01] S0 && result == nil ==> endOf(pos(captured(node))) == at(0, endOf(pos(captured(node))))
 //@   apply sibOrder(parent(pos(captured(node))), idx(pos(captured(node))) - 1)
+//@   loop 0 apply sibOrder(parent(pos(captured(node))), idx(pos(captured(node))) - 1)
+//@   loop 0 invariant[adjacent-step@C01] S0 ==> pos(captured(node)) == at(0, pos(captured(node))) || pre(pos(captured(node))) == at(0, endOf(pos(captured(node))))     // also in a round whose subtree has no match
 //@   ensures[adjacent-subtree@C01] S0 && result != nil ==> pos(captured(node)) == at(0, pos(captured(node))) || pre(pos(captured(node))) == at(0, endOf(pos(captured(node))))     // the subtree walked next starts exactly where the previous one ended
 //@ func (*followingQuery).Select$2$1
 //@   props C15 C01
@@ -799,6 +801,8 @@ package xpath
 //@   ensures[ends-at-root@C01] result == nil ==> isroot(pos(captured(node)))
 //@   ensures[start-of-document@C01] S0 && result == nil ==> nPrec(pos(captured(node))) == at(0, nPrec(pos(captured(node))))
 //@   apply sibOrder(parent(pos(captured(node))), idx(pos(captured(node))))
+//@   loop 0 apply sibOrder(parent(pos(captured(node))), idx(pos(captured(node))))
+//@   loop 0 invariant[adjacent-step@C01] S0 ==> pos(captured(node)) == at(0, pos(captured(node))) || endOf(pos(captured(node))) - depth(pos(captured(node))) == at(0, nPrec(pos(captured(node))))     // also in a round whose subtree has no match
 //@   ensures[adjacent-subtree@C01] S0 && result != nil ==> pos(captured(node)) == at(0, pos(captured(node))) || endOf(pos(captured(node))) - depth(pos(captured(node))) == at(0, nPrec(pos(captured(node))))     // the subtree walked next ends exactly where the previous one started
 //@ func (*precedingQuery).Select$2$1
 //@   props C15 C01
